@@ -212,6 +212,16 @@ func genPPTX(r *hx.Rng) *pkg {
 		}
 		p.Decoys = append(p.Decoys, d)
 	}
+	if !noRels && !noList { // near-name members (twins.go), from their own stream
+		tr := r.Fork(0x7717)
+		p.addOOXMLTwins(tr, "ppt", tSlide, used, &rels, func(j int, t *part) {
+			t.ID = fmt.Sprintf("rId%d", ids[n+j]+2)
+			t.Title = fmt.Sprintf("Heading %c", 'W'+byte(j))
+			if tr.Chance(3, 5) { // its own speaker notes, behind a relationship part whose name is a near-name too
+				addNotes(tr, t, 34+j, nnums[n+4+j]+1, used)
+			}
+		})
+	}
 	hx.Shuffle(r, rels)
 	if p.Oracle && r.Chance(1, 30) && len(p.Declared) > 1 {
 		rels = append(rels, [3]string{p.Declared[0].ID, tSlide, p.Declared[1].Ref})
